@@ -1,8 +1,9 @@
 // C01/C03: run the real aspif reader on a text with a Recorder attached and print the observation
 //   accepted line reports delivered-calls...
 // mode 0: readProgram (accept + parse(Complete));  mode 1: the caller's loop  parse(Incremental); while (more()) parse(Incremental);
-// primed (see reuse.h): the SAME AspifInput object first reads a fixed incremental primer text (calls discarded) and is then
-// attached to the case's text; unprimed cases use a fresh reader (readAspif / a new AspifInput) exactly as before.
+// primed (see reuse.h): the SAME AspifInput object first reads a primer text chosen by the case's hash (accepted incremental ones, or ones
+// REFUSED inside a rule / theory atom / string / later step / problem line; calls discarded) and is then attached to the case's text;
+// unprimed cases use a fresh reader (readAspif / a new AspifInput) exactly as before.
 #pragma once
 #include "rec.h"
 #include "reuse.h"
@@ -26,10 +27,11 @@ inline int readIncremental(std::istream& in, Potassco::AspifInput& reader, Potas
 	return 0;
 }
 // appends the observation of one read to o; the recorded calls go to rec (if given) instead of o
-inline bool readText(const std::string& text, int mode, Obs& o, Obs* recOut = 0, bool primed = false) {
+inline bool readText(const std::string& text, int mode, Obs& o, Obs* recOut = 0, const reuse::Primer* pr = 0) {
+	const bool primed = pr != 0;
 	Obs rec; Recorder r(rec);
 	std::istringstream in(text);
-	std::istringstream primer(reuse::ASPIF_PRIMER);
+	std::istringstream primer(std::string(pr ? pr->text : ""));
 	Potassco::AspifInput reader(r);
 	if (primed) { reuse::prime(reader, primer); rec.s.clear(); }
 	g_reports = 0; g_line = 0;
